@@ -15,8 +15,9 @@ LEVEL = "translation_validation"
 def run(tier, rep):
     build_harness()
     progs = fam_c17.programs(tier)
-    cases, counts = famcheck.run_families("C17", rep, progs, "c17")
-    rep.coverage["go_invalid_not_decidable_here"] = counts.get("go-invalid", 0)
+    # (a program whose Go text is not valid Go runs none of its call forms: reported here too, under the rule GoStatic.tla names)
+    cases, counts = famcheck.run_families("C17", rep, progs, "c17", goinvalid_is_violation=True)
+    rep.coverage["go_invalid"] = counts.get("go-invalid", 0)
     # ---- an inherent method defined for a generic type AND for one of its instantiations: whatever the language decides (reject
     # the overlap, or prefer one), `x.m()` and `T::m(x)` must run the same code - the two printed lines must be equal
     import engine
